@@ -1289,6 +1289,11 @@ impl HtmlRenderer {
             // Don't render carriage return characters, but allow lone carriage returns (not
             // followed by line feeds) to be styled via the attribute callback.
             if c == b'\r' {
+                // A carriage return that follows a pending carriage return: the pending one is
+                // not followed by a line feed, so it is a lone carriage return.
+                if let Some(offset) = self.last_carriage_return.take() {
+                    self.add_carriage_return(offset, attribute_callback);
+                }
                 self.last_carriage_return = Some(self.html.len());
                 continue;
             }
